@@ -188,7 +188,7 @@ Proof.
   assert (Hafter : forall r',
             match round_solution eps cols x demands with
             | Some (sol0, total) =>
-                if proven eps gap (if conv then Some (Qceil (lp_obj - eps)) else None) (inject_Z total)
+                if proven gap (if conv then Some (Qceil (lp_obj - eps)) else None) (inject_Z total)
                 then Some (mkB (BpDone OPTIMAL (Some sol0) (Some total) cg_iters) cols x duals (Some lp_obj) cg_iters conv)
                 else Some (mkB (BpTree (if conv then Some (Qceil (lp_obj - eps)) else None) (Some (sol0, total))) cols x duals (Some lp_obj) cg_iters conv)
             | None => Some (mkB (BpTree (if conv then Some (Qceil (lp_obj - eps)) else None) None) cols x duals (Some lp_obj) cg_iters conv)
@@ -196,7 +196,7 @@ Proof.
             b_out r' = BpDone st (Some sol) (Some obj) it -> plan_ok sizes width demands sol obj = true).
   { intros r' Hr' Hout.
     destruct (round_solution eps cols x demands) as [[sol0 total]|] eqn:Er.
-    - destruct (proven eps gap _ (inject_Z total)); inversion Hr'; subst r'; simpl in Hout; [|discriminate].
+    - destruct (proven gap _ (inject_Z total)); inversion Hr'; subst r'; simpl in Hout; [|discriminate].
       injection Hout as E1 E2 E3 E4. subst sol0 total. apply (round_solution_ok eps sizes width cols x demands _ _ Hpool Er).
     - inversion Hr'; subst r'. simpl in Hout. discriminate. }
   destruct (most_fractional eps 0 x (None, 0%Q)) as [fi|].
